@@ -171,6 +171,16 @@ class TSeq(Ty):
         self.elem = elem
     def key(self): return (self.elem,)
     def comps(self): return [I, z3.ArraySort(I, self.elem.comps()[0])]
+class TMapSeq(Ty):
+    """immutable view  key -> sequence  of a dict of lists (the abstract table of DESIGN A.2)"""
+    def __init__(self, k, elem):
+        self.k = k; self.elem = elem
+    def key(self): return (self.k, self.elem)
+    def comps(self):
+        ks = self.k.comps()[0]
+        return [z3.ArraySort(ks, B), z3.ArraySort(ks, I), z3.ArraySort(ks, z3.ArraySort(I, self.elem.comps()[0]))]
+
+
 class TTuple(Ty):
     def __init__(self, items):
         self.items = tuple(items)
